@@ -1625,6 +1625,7 @@ Queue<ItemType>::
 EnsureSizeAux(uint32 size, bool setNumItems, uint32 extraPreallocs, ItemType ** retOldArray, bool allowShrink)
 {
    if (retOldArray) *retOldArray = NULL;  // default value, will be set non-NULL iff the old array needs deleting later
+   if (setNumItems) extraPreallocs = 0;   // as documented:  (extraReallocItems) is ignored if (setNumItems) is true
 
    if (size < _itemCount)
    {
